@@ -219,11 +219,14 @@ func (s *session) scriptFor(p peer.ID) dialScript {
 }
 
 // recordDial logs one dial attempt together with a snapshot of how far the peer's in-flight request
-// streams have been consumed at this very instant.
-func (s *session) recordDial(method string, p peer.ID, addrs []ma.Multiaddr) dialScript {
-	ev := &dialEvent{Stamp: s.stamp(), T: s.now(), Method: method, Peer: p, Addrs: addrs}
+// streams have been consumed at this very instant. The addresses the dial will try and the set of
+// the peer's requests in service are read in ONE critical section (a handler leaves that set only
+// after it has cleared its addresses, so every address read here belongs to a request listed here).
+func (s *session) recordDial(method string, p peer.ID, addrsOf func(peer.ID) []ma.Multiaddr) (dialScript, []ma.Multiaddr) {
 	s.mu.Lock()
 	defer s.mu.Unlock()
+	addrs := addrsOf(p)
+	ev := &dialEvent{Stamp: s.stamp(), T: s.now(), Method: method, Peer: p, Addrs: addrs}
 	sc := dialScript{Connect: "ok", Stream: "ok"}
 	for i, rq := range s.inflight[p] {
 		c, o := rq.st.snapshot()
@@ -234,7 +237,7 @@ func (s *session) recordDial(method string, p peer.ID, addrs []ma.Multiaddr) dia
 	}
 	s.dials = append(s.dials, ev)
 	s.calls = append(s.calls, callEvent{Stamp: ev.Stamp, T: ev.T, Kind: "DIAL via " + method, Peer: string(p), Addrs: addrStrings(addrs)})
-	return sc
+	return sc, addrs
 }
 
 func (s *session) addDialBack(p peer.ID, st *dialBackStream) {
